@@ -1,4 +1,5 @@
 import MevCommit.Model.Monitor
+import MevCommit.Model.WatchLoop
 /-
 C09 — property theorems about the receipt monitor, for every sequence (every interleaving of
 the atomic steps) of submissions, watch registrations, batch-element replies for any snapshot,
@@ -434,3 +435,62 @@ example : (run init [.send 1 11, .send 2 22, .watch 2 22, .reply 3 1 11 (.receip
     run init [.send 1 11, .send 2 22, .reply 3 1 11 (.receipt 1), .observe 0, .reply 3 2 22 .notFound, .observe 1,
       .watch 2 22, .watch 1 11] = [.waiter 0, .waiter 1, .none, .none, .none, .none, .lateCancelled, .unknownTx] := by
   decide
+
+/-! ## The watch loop (`Model/WatchLoop`): what wakes the checker, and what never stops the loop -/
+
+/-- **only shutdown stops the watch loop**: whatever the chain node answers — failed block or nonce
+queries of any kind included — and however busy the checker is, the loop is alive after any
+sequence of wake-ups that contains no shutdown (so nobody is told "monitor closed" and new waiters
+keep being served) -/
+theorem C09_watch_loop_stops_only_on_shutdown (es : List WatchLoop.Ev) (s : WatchLoop.St) (ha : s.alive = true)
+    (hn : ∀ e ∈ es, e.w ≠ .shutdown) : (WatchLoop.run s es).alive = true := by
+  induction es generalizing s with
+  | nil => exact ha
+  | cons e es ih =>
+    apply ih
+    · have := hn e List.mem_cons_self
+      simp only [WatchLoop.step, ha]
+      cases hw : e.w with
+      | shutdown => exact absurd hw this
+      | newTx => cases e.block <;> simp <;> (try split) <;> (try cases e.nonce) <;> simp_all
+      | tick => cases e.block <;> simp <;> (try split) <;> (try cases e.nonce) <;> simp_all
+    · intro e' he'; exact hn e' (List.mem_cons_of_mem _ he')
+
+/-- a failed block-number query teaches nothing and changes nothing -/
+theorem C09_failed_block_query_is_invisible (s : WatchLoop.St) (w : WatchLoop.Wake) (nonce : WatchLoop.Ans) (idle : Bool)
+    (ha : s.alive = true) (hw : w ≠ .shutdown) : WatchLoop.step s w .err nonce idle = (s, .nothing) := by
+  cases w <;> simp_all [WatchLoop.step]
+
+/-- a failed confirmed-nonce query teaches nothing and changes nothing -/
+theorem C09_failed_nonce_query_is_invisible (s : WatchLoop.St) (w : WatchLoop.Wake) (block : WatchLoop.Ans) (idle : Bool)
+    (ha : s.alive = true) (hw : w ≠ .shutdown) : WatchLoop.step s w block .err idle = (s, .nothing) := by
+  cases w <;> cases block <;> simp_all [WatchLoop.step] <;> split <;> rfl
+
+/-- **progress**: a new block seen by an idle checker always leads to a check with the confirmed
+nonce the node reports — unresolved transactions below it are asked about again, by the ticker
+alone, nobody new having to start waiting -/
+theorem C09_new_block_triggers_check (s : WatchLoop.St) (w : WatchLoop.Wake) (b k : Nat) (ha : s.alive = true)
+    (hw : w ≠ .shutdown) (hb : s.lastBlock < b) :
+    (WatchLoop.step s w (.ok b) (.ok k) true).2 = .check k b := by
+  have hnb : ¬ b ≤ s.lastBlock := by omega
+  cases w
+  · exact absurd rfl hw
+  · simp [WatchLoop.step, ha]
+  · simp [WatchLoop.step, ha, hnb]
+
+/-- … and a newly registered waiter triggers one whatever the block number is -/
+theorem C09_new_waiter_triggers_check (s : WatchLoop.St) (b k : Nat) (ha : s.alive = true) :
+    (WatchLoop.step s .newTx (.ok b) (.ok k) true).2 = .check k b := by
+  simp [WatchLoop.step, ha]
+
+/-- a check carries exactly the answers of this iteration's two queries -/
+theorem C09_check_carries_this_rounds_answers (s : WatchLoop.St) (w : WatchLoop.Wake) (block nonce : WatchLoop.Ans) (idle : Bool) (k b : Nat)
+    (h : (WatchLoop.step s w block nonce idle).2 = .check k b) : block = .ok b ∧ nonce = .ok k ∧ idle = true := by
+  unfold WatchLoop.step at h
+  split at h
+  · simp at h
+  · cases w <;> cases block <;> cases nonce <;> cases idle <;> simp at h <;> (try split at h) <;> simp_all
+
+example : (WatchLoop.run WatchLoop.init [⟨.newTx, .ok 3, .ok 1, true⟩, ⟨.tick, .err, .ok 9, true⟩, ⟨.tick, .ok 4, .err, true⟩,
+    ⟨.tick, .ok 5, .ok 2, false⟩]) = ⟨true, 5, 2⟩ := by decide
+
